@@ -19,6 +19,7 @@ var hostileSeeds = []string{
 	"hashicorp/subnets/cidr", "hashicorp/subnets/cidr//", "hashicorp/subnets/cidr//a/..", "example.com/a/b/c", "example.com/a/b/c/d", "a/b/c@1.0.0", "a/b/c@", "@1.0.0", "a/b/c@1.0.0//", "a/b/c@1.0.0//x/../y",
 	"a/b/c@v1", "a/b/c@1.0.0@2.0.0", "xn--/a/b/c", "\u30c6\u30e9.example.com/a/b/c", "exa mple.com/a/b/c", "a/b/c d", "-/-/-", "_/_/_", "A/B/C", "a.b/c/d/e", "127.0.0.1/a/b/c", "localhost/a/b/c", "example.com:443/a/b/c",
 	"https://example.com/x.tgz?checksum=md5:00", "https://example.com/x.tgz#frag", "git::ssh://git@example.com/x.git", "git::ssh://example.com/x.git", "git::https://example.com/%2e%2e/x.git",
+	"a/b/c@18446744073709551616.0.0", "a/b/c@1.99999999999999999999.0", "example.com/a/b/c@0.0.340282366920938463463374607431768211456", "a/b/c@1.0.0-99999999999999999999",
 	"c:\\windows", ".\\a", "./a:b", "./a\\b", " ./a", "./a ", "\t", "\x00", "./\x00", "a/b/c\x00",
 }
 
@@ -101,7 +102,7 @@ func hostileManifest(r *simkit.RNG, strs []string) string {
 	locals := []string{"pkgdir", "pkgdir", "pkgdir0", "pkg", "pkgdir-old", "..cache", "...", "..", ".", "a/b", "a\\b", "", "/abs", "terraform-sources.json", "../x", "x/..", "pkgdir/", "/", "..\\..", "pkgdir\x00", "ü"}
 	sources := []string{"git::https://example.com/x.git", "https://example.com/x.tgz", "git::https://example.com/x.git//sub", "garbage", "", "./local", "https://user:pw@example.com/x.tgz", "git::https://example.com/x.git?ref=a"}
 	regs := []string{"example.com/a/b/c", "a/b/c", "example.com/a/b/c//sub", "garbage", "", "a/b"}
-	vers := []string{"1.0.0", "1.0.0-beta", "not-a-version", "", "1", "v1.0.0", "1.0.0+b", "0.0.0"}
+	vers := []string{"1.0.0", "1.0.0-beta", "not-a-version", "", "1", "v1.0.0", "1.0.0+b", "0.0.0", "18446744073709551616.0.0", "1.99999999999999999999.0"}
 	doc := map[string]interface{}{"terraform_source_bundle": simkit.Pick(r, []interface{}{1, 1, 1, 1, 1, 1, 0, 2, "1", -1, 1.5, nil})}
 	var pkgs []interface{}
 	for i := r.Range(0, 3); i > 0; i-- {
